@@ -41,3 +41,70 @@ Print Assumptions C17_bad_version.
 Print Assumptions C17_bad_version_inverted.
 Print Assumptions C17_clean_silent.
 Print Assumptions C17_compile_prune.
+
+(** ** at the level of the text ([Text/WarnText.v], on top of the acceptance theorem of [Text/MarkerAccept.v]):
+    for every marker text derivable from the grammar ([msrc] derivations with explicit blanks, [wf]), in which some
+    comparison cannot be interpreted: parsing succeeds, the warning of the matching kind is in the reported list, and
+    the diagram is that of the derivation with exactly those comparisons removed ([remove]: the comparison goes
+    together with the `and` / `or` that joined it; parentheses that become empty go too; TRUE if nothing remains).
+    Texts without such comparisons report nothing, apart from [extra] compared with a text that is not a valid
+    extra name (reported, kept with the never-matching flag).  Hypotheses on the character classes as in C01. *)
+From PV Require Import Text.MarkerAccept Text.WarnText.
+Section Text.
+Variables ws alpha alnum : N -> bool.
+Variable kw : list (text * mvalue).
+Variable vparse : text -> option rawversion.
+Variables specpat specver : vop -> text -> option (vop * list N).
+Variables pv pfv : N.
+Hypothesis Hws_wc : forall x, word_char alnum x = true -> ws x = false.
+Hypothesis Hws_delims : forall x, In x [34;39;40;41;60;61;62;126;33] -> ws x = false.
+Hypothesis Hws_it : ws 105 = false /\ ws 116 = false.
+Hypothesis Halpha_in : alpha 105 = true /\ alpha 110 = true.
+Hypothesis Halpha_sym : forall x, In x [60;61;62;126;33] -> alpha x = false.
+Hypothesis Halnum_kw : forall x, In x [97;110;100;111;114] -> alnum x = true.
+Hypothesis Halnum_delims : forall x, In x [40;41;34;39] -> alnum x = false.
+Notation PM := (parse_markers ws alpha alnum kw vparse specpat specver pv pfv).
+Notation tsrc := (typed_src ws kw vparse specpat specver).
+Notation val := (vsrc_value kw).
+
+Theorem C17_text_reported (m : msrc) (w : text) (l : vsrc) (o : osrc) (r : vsrc) (k : wkind) :
+  wf ws kw m -> blank ws w -> In (l, o, r) (cmps_of m) -> bogus (val l) (osrc_op o) (val r) = Some k ->
+  fst (tsrc l o r) = None /\ exists t wl, PM (msrc_text m ++ w) = POk (t, wl) /\ In k wl.
+Proof. intros W B H E. eapply text_bogus_reported; eassumption. Qed.
+
+Theorem C17_text_bad_version_reported (m : msrc) (w : text) (l : vsrc) (o : osrc) (r : vsrc) (k : N) (s : text) :
+  wf ws kw m -> blank ws w -> In (l, o, r) (cmps_of m) -> val l = MVVersion k -> val r = MVQuoted s ->
+  (forall op, vop_of (osrc_op o) = Some op -> specpat op s = None) ->
+  (match osrc_op o with OpIn | OpNotIn => version_list ws vparse (S (length s)) (c_new s) = None | _ => True end) ->
+  fst (tsrc l o r) = None /\ exists t wl, PM (msrc_text m ++ w) = POk (t, wl) /\ In WPep440 wl.
+Proof. intros W B H El Er Hs Hl. eapply text_bad_version_reported; eassumption. Qed.
+
+Theorem C17_text_removed (m : msrc) (w : text) : wf ws kw m -> blank ws w ->
+  PM (msrc_text m ++ w) =
+  POk (match remove ws kw vparse specpat specver m with
+       | Some m' => compile pv pfv (ast_of ws kw vparse specpat specver m')
+       | None => Leaf true
+       end, warns_of ws kw vparse specpat specver m) /\
+  match remove ws kw vparse specpat specver m with Some m' => cmps_of m' | None => [] end =
+  filter (keptb ws kw vparse specpat specver) (cmps_of m).
+Proof. intros W B. split; [eapply text_removed; eassumption | apply remove_cmps]. Qed.
+
+Theorem C17_text_clean_silent (m : msrc) (w : text) : wf ws kw m -> blank ws w ->
+  kept ws kw vparse specpat specver m ->
+  (forall l o r, In (l, o, r) (cmps_of m) -> ~ extra_invalid kw l r) ->
+  PM (msrc_text m ++ w) = POk (compile pv pfv (ast_of ws kw vparse specpat specver m), []).
+Proof. intros W B K X. eapply text_clean_silent; eassumption. Qed.
+
+Theorem C17_text_invalid_extra_kept (m : msrc) (w : text) (l : vsrc) (o : osrc) (r : vsrc) (s : text) :
+  wf ws kw m -> blank ws w -> In (l, o, r) (cmps_of m) ->
+  ((val l = MVExtra /\ val r = MVQuoted s) \/ (val l = MVQuoted s /\ val r = MVExtra)) -> extra_name s = None ->
+  (osrc_op o = OpEq \/ osrc_op o = OpNe) ->
+  fst (tsrc l o r) = Some (EExtra (match osrc_op o with OpNe => true | _ => false end) true s) /\
+  exists t wl, PM (msrc_text m ++ w) = POk (t, wl) /\ In WExtraInvalid wl.
+Proof. intros W B H V E O. eapply text_extra_invalid_reported; eassumption. Qed.
+End Text.
+Print Assumptions C17_text_reported.
+Print Assumptions C17_text_bad_version_reported.
+Print Assumptions C17_text_removed.
+Print Assumptions C17_text_clean_silent.
+Print Assumptions C17_text_invalid_extra_kept.
